@@ -36,6 +36,18 @@ def group_of(key):
     return None
 
 
+def specified(f):
+    """functions whose behaviour is specified one by one: the public API and trait methods.  Private helpers are inlined into them."""
+    if "{closure" in f.canon:
+        return False
+    return f.impl_trait is not None or (f.j.get("vis") == "Public")
+
+
+def load2(config="A"):
+    p = os.path.join(HERE, "expect2", "postcard_%s.json" % config)
+    return json.load(open(p))
+
+
 def load(config="A"):
     p = os.path.join(HERE, "expect", "postcard_%s.json" % config)
     return json.load(open(p))
@@ -46,6 +58,69 @@ def fns_of_group(crate, group):
     for f in crate.fns:
         if group_of(summ.fn_key(f)) == group:
             out.append(f)
+    return out
+
+
+def check_group2(run, rule, F, crate, group, expect, only=None, what=None):
+    """every specified function of the group (public API and trait methods; private helpers are inlined into them) must be equivalent
+    to its specified semantic summary; a specified function that disappeared fails closed"""
+    import summ2
+    fns = {summ.fn_key(f): f for f in fns_of_group(crate, group) if specified(f)}
+    ren = renames(F, crate, expect)
+    n = 0
+    for key, want in sorted(expect.get(group, {}).items()):
+        if only and not only(key):
+            continue
+        f = fns.get(key)
+        if f is None:
+            run.bad(rule, key, "specified function not found in the analysed crate (public API or trait method renamed or removed?)")
+            continue
+        summ2.check(run, rule, f, want, F, what=what, renames=ren)
+        n += 1
+    for key, f in sorted(fns.items()):
+        if only and not only(key):
+            continue
+        if key not in expect.get(group, {}):
+            if f.impl_trait is None:
+                run.note("unspecified new public function in group %s (not judged): %s" % (group, key))
+            else:
+                run.bad(rule, key, "trait method of group %s has no specified summary (new override touching the mechanism)" % group, f.where())
+    return n
+
+
+_REN = {}
+
+
+def renames(F, crate, expect):
+    """private struct fields renamed since the specification was written: {new name: specified name}, found as the bijection between
+    the names that disappeared and the names that appeared in the same struct (only when the field count is unchanged)"""
+    k = id(crate)
+    if k in _REN:
+        return _REN[k]
+    out = {}
+    spec = expect.get("__fields__", {})
+    for name, adt in crate.adts.items():
+        if name not in spec:
+            continue
+        cur = [fl["name"] for v in adt.get("variants", []) for fl in v.get("fields", []) if not fl["name"].isdigit()]
+        old = spec[name]
+        if len(cur) != len(old) or cur == old:
+            continue
+        gone = [x for x in old if x not in cur]
+        new = [x for x in cur if x not in old]
+        if len(gone) != len(new) or not gone:
+            continue
+        # same position first (a rename in place), which is the only candidate when fields were not also reordered
+        cand = {}
+        for n_ in new:
+            i = cur.index(n_)
+            if i < len(old) and old[i] in gone:
+                cand[n_] = old[i]
+        if len(cand) == len(new) and len(set(cand.values())) == len(new):
+            out.update(cand)
+        elif len(new) == 1:
+            out[new[0]] = gone[0]
+    _REN[k] = out
     return out
 
 
